@@ -9,6 +9,7 @@ import (
 
 	"golang.org/x/tools/go/packages"
 	"golang.org/x/tools/go/ssa"
+	"golang.org/x/tools/go/types/typeutil"
 
 	"hrverif/internal/core"
 )
@@ -27,6 +28,7 @@ type flagDecl struct {
 	Command  string // "" for application-level flags, else the enclosing command's Name
 	Pos      token.Pos
 	Pkg      *packages.Package
+	DefInfo  *types.Info // type information DefExpr belongs to when it is not Pkg's own
 }
 
 func constString(info *types.Info, e ast.Expr) (string, bool) {
@@ -44,91 +46,361 @@ func namedIs(t types.Type, pkg, name string) bool {
 	return ok && n.Obj().Pkg() != nil && n.Obj().Pkg().Path() == pkg && n.Obj().Name() == name
 }
 
-// collectFlags finds every flag literal and the command literal that encloses it.
+// collectFlags finds every flag literal of the tree, the names it can be
+// declared under and the levels (application or command) it is declared on.
+//
+// A literal is usually spelled out inside a cli.Command literal or in the
+// function that fills App.Flags. Two indirections are followed as well:
+//   - a helper function that builds flags (PeriodFlags(), newStringFlag(name, …)):
+//     its flags are declared wherever the helper is called, with the call's
+//     arguments bound to the helper's parameters;
+//   - a table of rows ([]flagSpec{{"begin","b",…}, …} with a method that turns a
+//     row into a flag): one declaration per composite literal of the row type,
+//     with the row's fields bound.
 func collectFlags(p *core.Program) []flagDecl {
-	var out []flagDecl
+	type site struct {
+		node  ast.Node
+		stack []ast.Node
+		pkg   *packages.Package
+		fn    types.Object // enclosing function declaration, nil at package level
+	}
+	calls := map[types.Object][]site{}
+	lits := map[string][]site{}
+	var flagLits []site
+	decls := map[types.Object]*ast.FuncDecl{}
 	for _, pkg := range p.RootsInScope() {
 		info := pkg.TypesInfo
 		for _, f := range pkg.Syntax {
 			var stack []ast.Node
+			var fnStack []types.Object
 			ast.Inspect(f, func(n ast.Node) bool {
 				if n == nil {
+					if fd, ok := stack[len(stack)-1].(*ast.FuncDecl); ok && len(fnStack) > 0 {
+						_ = fd
+						fnStack = fnStack[:len(fnStack)-1]
+					}
 					stack = stack[:len(stack)-1]
 					return true
 				}
 				stack = append(stack, n)
-				cl, ok := n.(*ast.CompositeLit)
-				if !ok {
-					return true
+				var cur types.Object
+				if len(fnStack) > 0 {
+					cur = fnStack[len(fnStack)-1]
 				}
-				tv, ok := info.Types[cl]
-				if !ok {
-					return true
-				}
-				nt, ok := tv.Type.(*types.Named)
-				if !ok || nt.Obj().Pkg() == nil || nt.Obj().Pkg().Path() != cliPkg || !strings.HasSuffix(nt.Obj().Name(), "Flag") {
-					return true
-				}
-				fd := flagDecl{Kind: nt.Obj().Name(), Pos: cl.Pos(), Pkg: pkg}
-				for _, el := range cl.Elts {
-					kv, ok := el.(*ast.KeyValueExpr)
+				switch x := n.(type) {
+				case *ast.FuncDecl:
+					o := info.Defs[x.Name]
+					decls[o] = x
+					fnStack = append(fnStack, o)
+				case *ast.CallExpr:
+					if o := typeutil.Callee(info, x); o != nil {
+						calls[o] = append(calls[o], site{x, append([]ast.Node(nil), stack...), pkg, cur})
+					}
+				case *ast.CompositeLit:
+					tv, ok := info.Types[x]
 					if !ok {
-						continue
+						return true
 					}
-					key, _ := kv.Key.(*ast.Ident)
-					if key == nil {
-						continue
+					nt, ok := tv.Type.(*types.Named)
+					if !ok || nt.Obj().Pkg() == nil {
+						return true
 					}
-					switch key.Name {
-					case "Name":
-						if s, ok := constString(info, kv.Value); ok {
-							for _, part := range strings.Split(s, ",") {
-								fd.Names = append(fd.Names, strings.TrimSpace(part))
-							}
-						}
-					case "Aliases", "EnvVars":
-						if l, ok := kv.Value.(*ast.CompositeLit); ok {
-							for _, e := range l.Elts {
-								if s, ok := constString(info, e); ok {
-									if key.Name == "Aliases" {
-										fd.Aliases = append(fd.Aliases, s)
-									} else {
-										fd.EnvVars = append(fd.EnvVars, s)
-									}
-								}
-							}
-						}
-					case "Value":
-						fd.HasValue = true
-						fd.DefExpr = kv.Value
-						if tv, ok := info.Types[kv.Value]; ok {
-							fd.Default = tv.Value
-						}
+					st := site{x, append([]ast.Node(nil), stack...), pkg, cur}
+					if nt.Obj().Pkg().Path() == cliPkg && strings.HasSuffix(nt.Obj().Name(), "Flag") {
+						flagLits = append(flagLits, st)
+					} else if _, isStruct := nt.Underlying().(*types.Struct); isStruct && p.InScopePkg(nt.Obj().Pkg().Path()) {
+						lits[nt.String()] = append(lits[nt.String()], st)
 					}
 				}
-				// enclosing cli.Command literal, if any
-				for i := len(stack) - 2; i >= 0; i-- {
-					if ocl, ok := stack[i].(*ast.CompositeLit); ok {
-						if otv, ok := info.Types[ocl]; ok && namedIs(otv.Type, cliPkg, "Command") {
-							for _, el := range ocl.Elts {
-								if kv, ok := el.(*ast.KeyValueExpr); ok {
-									if k, _ := kv.Key.(*ast.Ident); k != nil && k.Name == "Name" {
-										if s, ok := constString(info, kv.Value); ok {
-											fd.Command = s
-										}
-									}
-								}
-							}
-							if fd.Command == "" {
-								fd.Command = "?"
-							}
-							break
-						}
-					}
-				}
-				out = append(out, fd)
 				return true
 			})
+		}
+	}
+	// the command a node is lexically inside, if any
+	lexicalCommand := func(st site) (string, bool) {
+		info := st.pkg.TypesInfo
+		for i := len(st.stack) - 2; i >= 0; i-- {
+			ocl, ok := st.stack[i].(*ast.CompositeLit)
+			if !ok {
+				continue
+			}
+			if otv, ok := info.Types[ocl]; ok && namedIs(otv.Type, cliPkg, "Command") {
+				name := ""
+				for _, el := range ocl.Elts {
+					if kv, ok := el.(*ast.KeyValueExpr); ok {
+						if k, _ := kv.Key.(*ast.Ident); k != nil && k.Name == "Name" {
+							if s, ok := constString(info, kv.Value); ok {
+								name = s
+							}
+						}
+					}
+				}
+				if name == "" {
+					name = "?"
+				}
+				return name, true
+			}
+		}
+		return "", false
+	}
+	var levelsOf func(fn types.Object, depth int) []string
+	levelsOf = func(fn types.Object, depth int) []string {
+		if fn == nil || depth > 3 || len(calls[fn]) == 0 {
+			return []string{""}
+		}
+		seen := map[string]bool{}
+		var out []string
+		for _, cs := range calls[fn] {
+			var ls []string
+			if c, ok := lexicalCommand(cs); ok {
+				ls = []string{c}
+			} else {
+				ls = levelsOf(cs.fn, depth+1)
+			}
+			for _, l := range ls {
+				if !seen[l] {
+					seen[l] = true
+					out = append(out, l)
+				}
+			}
+		}
+		return out
+	}
+	siteLevels := func(st site) []string {
+		if c, ok := lexicalCommand(st); ok {
+			return []string{c}
+		}
+		return levelsOf(st.fn, 0)
+	}
+	var out []flagDecl
+	for _, fl := range flagLits {
+		info := fl.pkg.TypesInfo
+		cl := fl.node.(*ast.CompositeLit)
+		nt := info.Types[cl].Type.(*types.Named)
+		// environments: how the non-constant operands of the literal are bound
+		type env struct {
+			params map[types.Object]ast.Expr // parameter -> argument
+			pinfo  *types.Info
+			fields map[string]ast.Expr // row field -> value
+			finfo  *types.Info
+			levels []string
+		}
+		envs := []env{{levels: siteLevels(fl)}}
+		var fdecl *ast.FuncDecl
+		if fl.fn != nil {
+			fdecl = decls[fl.fn]
+		}
+		usesParam, rowType := false, ""
+		if fdecl != nil {
+			ast.Inspect(cl, func(n ast.Node) bool {
+				switch x := n.(type) {
+				case *ast.SelectorExpr:
+					if id, ok := x.X.(*ast.Ident); ok {
+						if o := info.Uses[id]; o != nil {
+							t := o.Type()
+							if pt, ok := t.(*types.Pointer); ok {
+								t = pt.Elem()
+							}
+							if named, ok := t.(*types.Named); ok && len(lits[named.String()]) > 0 {
+								rowType = named.String()
+							}
+						}
+					}
+				case *ast.Ident:
+					if o, ok := info.Uses[x].(*types.Var); ok && fdecl.Type.Params != nil {
+						for _, fld := range fdecl.Type.Params.List {
+							for _, nm := range fld.Names {
+								if info.Defs[nm] == types.Object(o) {
+									usesParam = true
+								}
+							}
+						}
+					}
+				}
+				return true
+			})
+		}
+		switch {
+		case rowType != "":
+			envs = nil
+			for _, row := range lits[rowType] {
+				rl := row.node.(*ast.CompositeLit)
+				st, _ := row.pkg.TypesInfo.Types[rl].Type.Underlying().(*types.Struct)
+				fields := map[string]ast.Expr{}
+				for i, el := range rl.Elts {
+					if kv, ok := el.(*ast.KeyValueExpr); ok {
+						if k, _ := kv.Key.(*ast.Ident); k != nil {
+							fields[k.Name] = kv.Value
+						}
+					} else if st != nil && i < st.NumFields() {
+						fields[st.Field(i).Name()] = el
+					}
+				}
+				envs = append(envs, env{fields: fields, finfo: row.pkg.TypesInfo, levels: siteLevels(row)})
+			}
+		case usesParam && len(calls[fl.fn]) > 0:
+			envs = nil
+			for _, cs := range calls[fl.fn] {
+				call := cs.node.(*ast.CallExpr)
+				params := map[types.Object]ast.Expr{}
+				i := 0
+				for _, fld := range fdecl.Type.Params.List {
+					for _, nm := range fld.Names {
+						if i < len(call.Args) {
+							params[info.Defs[nm]] = call.Args[i]
+						}
+						i++
+					}
+				}
+				envs = append(envs, env{params: params, pinfo: cs.pkg.TypesInfo, levels: siteLevels(cs)})
+			}
+		}
+		// assignments to the flag variable after the literal: f.Aliases = []string{x}; f.EnvVars = []string{x}
+		type late struct {
+			field string
+			elems []ast.Expr
+		}
+		var lates []late
+		if fdecl != nil {
+			var flagVar types.Object
+			ast.Inspect(fdecl, func(n ast.Node) bool {
+				as, ok := n.(*ast.AssignStmt)
+				if !ok {
+					return true
+				}
+				for i, r := range as.Rhs {
+					e := ast.Unparen(r)
+					if u, ok := e.(*ast.UnaryExpr); ok {
+						e = ast.Unparen(u.X)
+					}
+					if e == ast.Expr(cl) && i < len(as.Lhs) {
+						if id, ok := as.Lhs[i].(*ast.Ident); ok {
+							if o := info.Defs[id]; o != nil {
+								flagVar = o
+							} else {
+								flagVar = info.Uses[id]
+							}
+						}
+					}
+				}
+				return true
+			})
+			if flagVar != nil {
+				ast.Inspect(fdecl, func(n ast.Node) bool {
+					as, ok := n.(*ast.AssignStmt)
+					if !ok || len(as.Lhs) != 1 || len(as.Rhs) != 1 {
+						return true
+					}
+					sel, ok := as.Lhs[0].(*ast.SelectorExpr)
+					if !ok {
+						return true
+					}
+					id, ok := sel.X.(*ast.Ident)
+					if !ok || info.Uses[id] != flagVar || (sel.Sel.Name != "Aliases" && sel.Sel.Name != "EnvVars") {
+						return true
+					}
+					if l, ok := as.Rhs[0].(*ast.CompositeLit); ok {
+						lates = append(lates, late{sel.Sel.Name, l.Elts})
+					}
+					return true
+				})
+			}
+		}
+		for _, ev := range envs {
+			eval := func(e ast.Expr) (string, bool) {
+				if s, ok := constString(info, e); ok {
+					return s, true
+				}
+				switch x := ast.Unparen(e).(type) {
+				case *ast.Ident:
+					if ev.params != nil {
+						if arg, ok := ev.params[info.Uses[x]]; ok {
+							return constString(ev.pinfo, arg)
+						}
+					}
+				case *ast.SelectorExpr:
+					if ev.fields != nil {
+						if v, ok := ev.fields[x.Sel.Name]; ok {
+							return constString(ev.finfo, v)
+						}
+					}
+				}
+				return "", false
+			}
+			evalExpr := func(e ast.Expr) (ast.Expr, *types.Info) {
+				switch x := ast.Unparen(e).(type) {
+				case *ast.Ident:
+					if ev.params != nil {
+						if arg, ok := ev.params[info.Uses[x]]; ok {
+							return arg, ev.pinfo
+						}
+					}
+				case *ast.SelectorExpr:
+					if ev.fields != nil {
+						if v, ok := ev.fields[x.Sel.Name]; ok {
+							return v, ev.finfo
+						}
+					}
+				}
+				return e, info
+			}
+			fd := flagDecl{Kind: nt.Obj().Name(), Pos: cl.Pos(), Pkg: fl.pkg}
+			for _, el := range cl.Elts {
+				kv, ok := el.(*ast.KeyValueExpr)
+				if !ok {
+					continue
+				}
+				key, _ := kv.Key.(*ast.Ident)
+				if key == nil {
+					continue
+				}
+				switch key.Name {
+				case "Name":
+					if s, ok := eval(kv.Value); ok {
+						for _, part := range strings.Split(s, ",") {
+							fd.Names = append(fd.Names, strings.TrimSpace(part))
+						}
+					}
+				case "Aliases", "EnvVars":
+					if l, ok := kv.Value.(*ast.CompositeLit); ok {
+						for _, e := range l.Elts {
+							if s, ok := eval(e); ok && s != "" {
+								if key.Name == "Aliases" {
+									fd.Aliases = append(fd.Aliases, s)
+								} else {
+									fd.EnvVars = append(fd.EnvVars, s)
+								}
+							}
+						}
+					}
+				case "Value":
+					fd.HasValue = true
+					ve, vinfo := evalExpr(kv.Value)
+					fd.DefExpr = ve
+					if tv, ok := vinfo.Types[ve]; ok {
+						fd.Default = tv.Value
+					}
+					if fd.Pkg.TypesInfo != vinfo {
+						fd.DefInfo = vinfo
+					}
+				}
+			}
+			for _, lt := range lates {
+				for _, e := range lt.elems {
+					if s, ok := eval(e); ok && s != "" {
+						if lt.field == "Aliases" {
+							fd.Aliases = append(fd.Aliases, s)
+						} else {
+							fd.EnvVars = append(fd.EnvVars, s)
+						}
+					}
+				}
+			}
+			for _, lv := range ev.levels {
+				d := fd
+				d.Command = lv
+				out = append(out, d)
+			}
 		}
 	}
 	return out
@@ -158,6 +430,45 @@ type flagRead struct {
 	Index   ssa.Value // its index expression
 }
 
+// flagAccess: the call reads a command-line flag — a method of *cli.Context, or
+// the same method through an interface that abstracts the context (it must
+// offer IsSet). Returns the method name and the operand that names the flag.
+func flagAccess(ci ssa.CallInstruction) (method string, nameArg ssa.Value, ok bool) {
+	com := ci.Common()
+	names := []string{"String", "Int", "Bool", "IsSet", "Float64", "Duration", "StringSlice", "Int64", "Uint", "Path", "Timestamp", "Generic", "Value", "Count"}
+	if com.IsInvoke() {
+		it, isI := com.Value.Type().Underlying().(*types.Interface)
+		if !isI || len(com.Args) != 1 {
+			return "", nil, false
+		}
+		hasIsSet := false
+		for i := 0; i < it.NumMethods(); i++ {
+			if it.Method(i).Name() == "IsSet" {
+				hasIsSet = true
+			}
+		}
+		if !hasIsSet {
+			return "", nil, false
+		}
+		for _, n := range names {
+			if com.Method.Name() == n {
+				return n, com.Args[0], true
+			}
+		}
+		return "", nil, false
+	}
+	cal := com.StaticCallee()
+	if cal == nil || len(com.Args) < 2 {
+		return "", nil, false
+	}
+	for _, n := range names {
+		if isCtxMethod(cal, n) {
+			return n, com.Args[1], true
+		}
+	}
+	return "", nil, false
+}
+
 func isCtxMethod(callee *ssa.Function, name string) bool {
 	return isMethod(callee, cliPkg, "Context", name)
 }
@@ -181,6 +492,13 @@ func flagNames(p *core.Program, v ssa.Value, depth int) ([]string, bool) {
 			out = append(out, s...)
 		}
 		return out, len(out) > 0
+	case *ssa.Field:
+		return fieldStrings(p, x.X.Type(), x.Field)
+	case *ssa.UnOp:
+		if fa, ok := x.X.(*ssa.FieldAddr); ok && x.Op == token.MUL {
+			return fieldStrings(p, fa.X.Type(), fa.Field)
+		}
+		return nil, false
 	case *ssa.Parameter:
 		if depth <= 0 {
 			return nil, false
@@ -216,6 +534,39 @@ func flagNames(p *core.Program, v ssa.Value, depth int) ([]string, bool) {
 	return nil, false
 }
 
+// fieldStrings: the constant strings ever stored into field i of the struct
+// type t (a table row's "flag" column); fails if anything else is stored there.
+func fieldStrings(p *core.Program, t types.Type, i int) ([]string, bool) {
+	if pt, ok := t.Underlying().(*types.Pointer); ok {
+		t = pt.Elem()
+	}
+	var out []string
+	for _, fn := range p.Funcs {
+		for _, b := range fn.Blocks {
+			for _, in := range b.Instrs {
+				st, ok := in.(*ssa.Store)
+				if !ok {
+					continue
+				}
+				fa, ok := st.Addr.(*ssa.FieldAddr)
+				if !ok || fa.Field != i {
+					continue
+				}
+				ft := fa.X.Type().Underlying().(*types.Pointer).Elem()
+				if !types.Identical(ft, t) {
+					continue
+				}
+				c, ok := st.Val.(*ssa.Const)
+				if !ok || c.Value == nil || c.Value.Kind() != constant.String {
+					return nil, false
+				}
+				out = append(out, constant.StringVal(c.Value))
+			}
+		}
+	}
+	return uniq(out), len(out) > 0
+}
+
 func collectFlagReads(p *core.Program) []flagRead {
 	var out []flagRead
 	for _, fn := range p.Funcs {
@@ -225,27 +576,21 @@ func collectFlagReads(p *core.Program) []flagRead {
 				if !ok {
 					continue
 				}
-				cal := call.Call.StaticCallee()
-				if cal == nil {
+				m, nameArg, isFlag := flagAccess(call)
+				if !isFlag {
 					continue
 				}
-				m := ""
-				for _, n := range []string{"String", "Int", "Bool", "IsSet", "Float64", "Duration", "StringSlice", "Int64", "Uint", "Path", "Timestamp", "Generic", "Value", "Count"} {
-					if isCtxMethod(cal, n) {
-						m = n
-					}
-				}
-				if m == "" || len(call.Call.Args) < 2 {
-					continue
-				}
-				cst, ok := call.Call.Args[1].(*ssa.Const)
+				cst, ok := nameArg.(*ssa.Const)
 				if !ok || cst.Value == nil || cst.Value.Kind() != constant.String {
 					out = append(out, flagRead{Fn: fn, Call: call, Method: m, Name: ""})
 					continue
 				}
 				fr := flagRead{Fn: fn, Call: call, Method: m, Name: constant.StringVal(cst.Value)}
 				// receiver: *IndexAddr(Lineage(), i) loaded
-				recv := call.Call.Args[0]
+				recv := call.Call.Value
+				if !call.Call.IsInvoke() {
+					recv = call.Call.Args[0]
+				}
 				if u, ok := recv.(*ssa.UnOp); ok && u.Op == token.MUL {
 					if ia, ok := u.X.(*ssa.IndexAddr); ok {
 						if lc, ok := ia.X.(*ssa.Call); ok && isCtxMethod(lc.Call.StaticCallee(), "Lineage") {
